@@ -31,6 +31,7 @@ import (
 	"github.com/alephium/wormhole-fork/node/pkg/common"
 	"github.com/alephium/wormhole-fork/node/pkg/db"
 	"github.com/alephium/wormhole-fork/node/pkg/ecdsasigner"
+	"github.com/alephium/wormhole-fork/node/pkg/notify/discord"
 	gossipv1 "github.com/alephium/wormhole-fork/node/pkg/proto/gossip/v1"
 	"github.com/alephium/wormhole-fork/node/pkg/reporter"
 	"github.com/alephium/wormhole-fork/node/pkg/supervisor"
@@ -160,6 +161,10 @@ func (w *pworld) reset(id string, our pkey) {
 		ourAddr:                  crypto.PubkeyToAddress(signer.PublicKey()),
 		governanceChainId:        pgovChain,
 		governanceEmitterAddress: pgovEmitter,
+	}
+	if w.r.Intn(2) == 0 {
+		// with a miss notifier configured (no channels, never reaches Discord): handleCleanup's notification block runs
+		w.p.notifier = discord.NewVerifNotifier()
 	}
 	fmt.Fprintf(w.w, "reset %s our=%s govchain=%d govemitter=%s\n", id, hex.EncodeToString(our.addr.Bytes()), pgovChain, hex.EncodeToString(pgovEmitter[:]))
 }
@@ -511,6 +516,7 @@ func (w *pworld) scenario(id string, thorough bool) {
 	r.Read(emitter[:])
 	seq := uint64(r.Intn(1000))
 	var msgs []*pmsg
+	var future []*pmsg
 	var pendingLoops []*gossipv1.SignedObservation
 	curSet := set
 	var prevSet []pkey
@@ -605,7 +611,13 @@ func (w *pworld) scenario(id string, thorough bool) {
 			m := msgs[r.Intn(len(msgs))]
 			k := curSet[r.Intn(len(curSet))]
 			o := w.obsFor(k, m.digest)
-			switch r.Intn(11) {
+			switch r.Intn(14) {
+			case 11:
+				o.Signature = o.Signature[:[]int{0, 1, 32, 63}[r.Intn(4)]] // short / empty signature (possibly from a guardian who already signed)
+			case 12:
+				o.Signature = nil
+			case 13:
+				o.Addr = nil
 			case 0:
 				o.Signature[r.Intn(64)] ^= 1 << uint(r.Intn(8))
 			case 1:
@@ -633,6 +645,20 @@ func (w *pworld) scenario(id string, thorough bool) {
 				o.Hash[r.Intn(32)] ^= 1 // unknown digest, signature no longer matches
 			}
 			do(w.observation(o))
+		case c < 70 && r.Intn(2) == 0: // observations for a message the node will only observe later (maybe after a set update)
+			m := newMsg()
+			future = append(future, m)
+			for _, i := range r.Perm(len(curSet))[:1+r.Intn(len(curSet))] {
+				do(w.observation(w.obsFor(curSet[i], m.digest)))
+			}
+		case c < 72 && len(future) > 0: // … now it does
+			m := future[0]
+			future = future[1:]
+			do(w.message(m.k))
+			if alive {
+				msgs = append(msgs, m)
+				collectLoop(m)
+			}
 		case c < 72: // observation for a digest we never observed (parked, later expired)
 			d := make([]byte, 32)
 			r.Read(d)
@@ -886,6 +912,122 @@ func (w *pworld) permFamily(id string, n int) {
 	}
 }
 
+// rotation families (C01/C02/C03): short directed scripts around a guardian-set rotation A -> B, the interleavings in which
+// "current set" and "set in force at observation time" differ.  Sizes, overlap, own position and the script are random.
+func (w *pworld) rotationFamily(id string) {
+	r := w.r
+	nA, nB := 1+r.Intn(7), 1+r.Intn(7)
+	pool := w.randKeys(nA + nB)
+	setA := pool[:nA]
+	mn := nA
+	if nB < mn {
+		mn = nB
+	}
+	shared := r.Intn(mn + 1)
+	setB := append([]pkey{}, setA[:shared]...)
+	setB = append(setB, pool[nA:nA+nB-shared]...)
+	r.Shuffle(len(setB), func(a, b int) { setB[a], setB[b] = setB[b], setB[a] })
+	our := setA[r.Intn(nA)]
+	if shared > 0 && r.Intn(3) != 0 {
+		our = setA[r.Intn(shared)]
+	}
+	mk := func(index uint32, ks []pkey) *common.GuardianSet {
+		g := &common.GuardianSet{Index: index}
+		for _, k := range ks {
+			g.Keys = append(g.Keys, k.addr)
+		}
+		return g
+	}
+	gA, gB := mk(7, setA), mk(8, setB)
+	w.reset(id, our)
+	var emitter vaa.Address
+	r.Read(emitter[:])
+	k := w.randMsg(emitter, uint64(1+r.Intn(1000)))
+	if len(k.Payload) == 0 {
+		k.Payload = []byte{3}
+	}
+	d := w.mkVAA(k, 0).SigningMsg().Bytes()
+	ok := true
+	step := func(b bool) {
+		if !b {
+			ok = false
+		}
+	}
+	obsAll := func(ks []pkey, n int) {
+		for _, i := range r.Perm(len(ks)) {
+			if n <= 0 || !ok {
+				return
+			}
+			step(w.observation(w.obsFor(ks[i], d)))
+			n--
+		}
+	}
+	quorumOf := func(ks []pkey) []int {
+		q := CalculateQuorum(len(ks))
+		idx := append([]int{}, r.Perm(len(ks))[:q]...)
+		sort.Ints(idx)
+		return idx
+	}
+	base := w.mkVAA(k, 0)
+	step(w.setUpdate(gA))
+	switch r.Intn(6) {
+	case 0: // parked under A, rotation, local observation under B, then B members
+		obsAll(setA, 1+r.Intn(nA))
+		step(ok && w.setUpdate(gB))
+		step(ok && w.message(k))
+		step(ok && w.observation(w.obsFor(our, d)))
+		obsAll(setB, nB)
+		obsAll(setA, nA)
+	case 1: // observed under A, rotation before quorum, then observations from both sets, then inbound copies
+		step(w.message(k))
+		step(ok && w.observation(w.obsFor(our, d)))
+		obsAll(setA, r.Intn(CalculateQuorum(nA)))
+		step(ok && w.setUpdate(gB))
+		obsAll(setB, nB)
+		step(ok && w.inbound(w.signedVAA(base, gB, setB, quorumOf(setB))))
+		step(ok && w.inbound(w.signedVAA(base, gA, setA, quorumOf(setA))))
+		obsAll(setA, nA)
+	case 2: // a peer's quorum VAA arrives while we are still collecting; then we reach quorum ourselves
+		step(w.message(k))
+		obsAll(setA, r.Intn(CalculateQuorum(nA)))
+		step(ok && w.inbound(w.signedVAA(base, gA, setA, quorumOf(setA))))
+		step(ok && w.observation(w.obsFor(our, d)))
+		obsAll(setA, nA)
+		step(ok && w.inbound(w.signedVAA(base, gA, setA, quorumOf(setA))))
+	case 3: // published under A, rotation, message observed again (snapshot moves to B), B members sign
+		step(w.message(k))
+		step(ok && w.observation(w.obsFor(our, d)))
+		obsAll(setA, nA)
+		step(ok && w.setUpdate(gB))
+		step(ok && w.message(k))
+		step(ok && w.observation(w.obsFor(our, d)))
+		obsAll(setB, nB)
+	case 4: // under quorum for A, rotation to B for which the held signatures may already suffice, re-observation
+		step(w.message(k))
+		step(ok && w.observation(w.obsFor(our, d)))
+		obsAll(setA[:shared], shared)
+		step(ok && w.setUpdate(gB))
+		step(ok && w.message(k))
+		step(ok && w.observation(w.obsFor(our, d)))
+		obsAll(setB, r.Intn(nB+1))
+	case 5: // rotation, inbound VAAs signed by the old and by the new set for a message never observed locally, then observed
+		step(w.setUpdate(gB))
+		step(ok && w.inbound(w.signedVAA(base, gA, setA, quorumOf(setA))))
+		step(ok && w.inbound(w.signedVAA(base, gB, setB, quorumOf(setB))))
+		step(ok && w.message(k))
+		step(ok && w.observation(w.obsFor(our, d)))
+		obsAll(setB, nB)
+	}
+	if ok {
+		w.advance(31 * time.Second)
+		step(w.cleanup(preqCap))
+	}
+	if ok {
+		w.advance(300 * time.Second)
+		step(w.cleanup(preqCap))
+	}
+}
+
 // soak (C14): a pending chain message and a pending injected VAA that never reach quorum, ticked every ~5 minutes.
 // quick: 14 ticks (past the 10-retry mark); thorough: the whole 14400-retry budget, with the message re-delivered after
 // every retry as a watcher honouring the re-observation request would do.
@@ -1046,6 +1188,13 @@ func TestVerifProcessor(t *testing.T) {
 	}
 	for i := 0; i < nperm; i++ {
 		w.permFamily(fmt.Sprintf("p%d", i), 1+w.r.Intn(5))
+	}
+	nrot := 60
+	if thorough {
+		nrot = 1500
+	}
+	for i := 0; i < nrot; i++ {
+		w.rotationFamily(fmt.Sprintf("r%d", i))
 	}
 	w.soak("k0", 14, false)
 	w.soak("k1", 14, true)
